@@ -90,6 +90,9 @@ def stepOp (env : Env) (st : St) (op : String) : St × Option String :=
     (st, some ("c:" ++ b01 (es.canDisplay (toInt! r) (f = "1"))))
   | ["R", r, s] => ({ st with es := st.es.registerFallback (toInt! r) (unhex s) }, none)
   | ["U", r] => ({ st with es := st.es.unregisterFallback (toInt! r) }, none)
+  -- the same calls made before Init (the fallback table is a field of the screen from its construction on)
+  | ["PR", r, s] => ({ st with es := st.es.registerFallback (toInt! r) (unhex s) }, none)
+  | ["PU", r] => ({ st with es := st.es.unregisterFallback (toInt! r) }, none)
   | ["X"] => ({ st with es := st.other, other := st.es }, none)
   | _ => (st, some "bad-op")
 
